@@ -55,7 +55,7 @@ DECIDING = ["sub_symbols", "get_free_symbols", "custom-factory", "MatrixFactoryG
             "Dagger.replace_params", "GateOperation.replace_params", "MultiPhaseOperation.replace_params",
             "ResetOperation.replace_params", "gate.free_symbols", "operation.free_symbols", "Circuit.free_symbols",
             "two-step", "circuit-unitary", "absent-untouched", "rebind"]
-BUDGET = {"quick": (4, 22, 900), "thorough": (16, 200, 100000)}
+BUDGET = {"quick": (4, 22, 150), "thorough": (16, 200, 100000)}
 CASE_TIMEOUT = {"quick": 15, "thorough": 30}
 
 _G = _C = _O = _W = None
@@ -719,9 +719,9 @@ def install(mon, reach):
 
     _G, _C, _O, _W = G, C, O, W
     mon.max_depth = 8  # Circuit.bind -> GateOperation.bind -> wrapper chain -> MatrixFactoryGate.bind -> sub_symbols
-    reach.watch(O._sub_symbols_in_number, "sub_symbols[number]")
-    reach.watch(O._sub_symbols_in_expression, "sub_symbols[expression]")
-    reach.watch(O._sub_symbols_in_symbol, "sub_symbols[symbol]")
+    reach.watch(getattr(O, "_sub_symbols_in_number", None), "sub_symbols[number]")
+    reach.watch(getattr(O, "_sub_symbols_in_expression", None), "sub_symbols[expression]")
+    reach.watch(getattr(O, "_sub_symbols_in_symbol", None), "sub_symbols[symbol]")
     reach.watch(O.get_free_symbols, "get_free_symbols")
     reach.watch(G.MatrixFactoryGate.bind, "MatrixFactoryGate.bind")
     reach.watch(G.ControlledGate.bind, "ControlledGate.bind")
@@ -734,7 +734,7 @@ def install(mon, reach):
     reach.watch(W.ResetOperation.replace_params, "ResetOperation.replace_params")
     reach.watch(C.Circuit.bind, "Circuit.bind")
     reach.watch(C.Circuit.free_symbols, "Circuit.free_symbols")
-    reach.watch(G.CustomGateMatrixFactory.__call__, "CustomGateMatrixFactory.__call__")
+    reach.watch(getattr(G.CustomGateMatrixFactory, "__call__", None), "CustomGateMatrixFactory.__call__")
 
     mon.hook_func(O, "sub_symbols", post=_post_sub_symbols, name="sub_symbols")
     mon.hook_func(O, "get_free_symbols", post=_post_get_free_symbols, name="get_free_symbols")
